@@ -123,7 +123,7 @@ TEXT["C17"] = {
              "(embedded included, by reflection) on an all-values cover, every base vector at the environmental level, x levels x languages "
              "and the no-option default; the schema is evaluated on the scores and severities the implementation itself reports for the object.",
     "ref": "5 (C17)", "note": _NOTE,
-    "technique": "Lean 4 proof (decide on the declarative schema) + regenerated names tables + field-by-field report correspondence"}
+    "technique": "Lean 4 proof (decide on the declarative schema) + regenerated names tables + source-to-Lean extraction of the report constructors' field initialisers (go/wiring) proved equal to the schema + field-by-field report correspondence"}
 TEXT["C18"] = {
     "level": "The names tables are translated from /repo's Go source into Lean on every run (go/extract); theorems by kernel evaluation over the "
              "regenerated tables: all titles/headers and all defined values (incl. Not Defined) non-empty in English and Japanese, injective per "
